@@ -61,7 +61,7 @@ def verify(wt, variant):
     res['demo_without_change'] = {'rc': rc, 'passed': p, 'failed': f}
     os.remove(os.path.join(wt, 'tests', tname + '.rs'))
     res['confirmed'] = bool(compiled and res['suite_with_change']['failed'] == 0 and res['suite_with_change']['passed'] >= 83
-                            and res['demo_with_change']['rc'] != 0 and res['demo_with_change']['failed'] > 0
+                            and res['demo_with_change']['rc'] != 0   # a failing or aborting (SIGABRT) demo
                             and res['demo_without_change']['rc'] == 0 and res['demo_without_change']['failed'] == 0)
     return res
 
